@@ -31,6 +31,7 @@ import DDProps.C07
 import DDProps.C07Accept
 import DDProps.C07Levels
 import DDProps.C08
+import DDProps.C08Accept
 import DDProps.C08Sched
 import DDProps.C08Values
 import DDProps.C08Values2
@@ -44,6 +45,7 @@ import DDProps.C11CopyVars
 import DDProps.C12
 import DDProps.C12Dyn
 import DDProps.C12Sched
+import DDProps.C12SchedKeep
 import DDProps.C12Total
 import DDProps.C12Perm
 import DDProps.C13
